@@ -161,6 +161,7 @@ class Ctx:
         self.used_lemmas = set()     # names of proved lemmas whose instances were used as hypotheses
         self.cnt_mono = False        # add cnt_mono instances over pairs of instantiation terms
         self.used_expr_contracts = set()
+        self.definitions = []        # definitional equations of opaque symbols applied on this path (for the CPython cross-check)
         self.term_maps = []          # unary z3 functions applied to the instantiation terms (e.g. a sort permutation)
         self.len_vars = []           # length variables of list / table inputs (for small counter-models)
         self.ghost = {}              # ghost values exposed to the contract (e.g. selected rows of a mask filter)
@@ -930,6 +931,8 @@ class Interp:
                     self.dropped.opaque_fstrings += 1
                     return Opaque('fstring')
                 if spec == '03' and is_intlike(v) and p.conversion == -1:
+                    if isinstance(v, Sym):
+                        self.ctx.definitions.append(reveal_fmt03(to_int_term(v)))
                     parts.append(SStr(fmt03(to_int_term(v))) if isinstance(v, Sym) else format(int(v), '03'))
                 elif spec is None and isinstance(v, str) and p.conversion == -1:
                     parts.append(v)
@@ -1248,7 +1251,11 @@ class Interp:
             m = self.lib.get(fn.dotted)
             if m is None:
                 raise Unsupported(f'external call {fn.dotted} has no library contract')
-            return m(self, args, kwargs)
+            try:
+                return m(self, args, kwargs)
+            except (TypeError, ValueError, KeyError, AttributeError) as e:
+                # the call shape is outside what the assumed contract covers
+                raise Unsupported(f'external call {fn.dotted}: call shape not covered by its library contract ({type(e).__name__}: {e})')
         if isinstance(fn, RepoFuncRef):
             return self.call_repo(fn, args, kwargs, fr, node)
         if isinstance(fn, LambdaVal):
@@ -1575,7 +1582,20 @@ def _digit(d):
     return out
 
 
+#: opaque symbol for Python's f'{n:03}'; its definition fmt03_def is revealed only where the digits matter
+fmt03F = z3.Function('fmt03F', z3.IntSort(), z3.StringSort())
+
+
 def fmt03(n):
+    return fmt03F(lift(n))
+
+
+def reveal_fmt03(n):
+    n = lift(n)
+    return fmt03F(n) == fmt03_def(n)
+
+
+def fmt03_def(n):
     """Python's f'{n:03}' for an int n, as a z3 string term (exact: sign counts in the width)."""
     n = lift(n)
     three = z3.Concat(_digit(n / 100), _digit((n / 10) % 10), _digit(n % 10))
